@@ -131,7 +131,7 @@ PROPS = {
     "C17": {
         "module": "GtfsVerif.Props.C17",
         "trusted_base": RT_TB,
-        "partial": ["elevator grouping over a whole feed is proved on the pre-pass model (C17_group_keys: one group per distinct documented id; C17_group_stops: the group's entry is not skipped, carries the documented id and informs exactly the distinct stops of all its members; C17_group_stops_perm: the same set for any order; later members skipped); cause/effect of the group's alert after the remaining UpdateAlert steps and the composition with ParseRealtime's merge loop are checked by the correspondence and the oracle",
+        "partial": ["elevator grouping over a whole feed is proved on the pre-pass model (C17_group_keys: one group per distinct documented id; C17_group_stops: the group's entry is not skipped, carries the documented id, cause maintenance and effect accessibility issue, and informs exactly the distinct stops of all its members; C17_group_stops_perm: the same set for any order; later members skipped); the composition with ParseRealtime's merge loop (a skipped entity contributes nothing, an alert entity contributes its alert: C02_alerts_exact) is checked end to end by the correspondence and the oracle",
                     "the JSON text of the NYCT metadata is opaque in the model (a marker); its presence is modelled exactly"],
         "assumptions": [],
     },
